@@ -133,30 +133,7 @@ def r2_exclusion(ctx, prog):
                     break
             if not bad:
                 r.ok(f['qname'], site, '%d paths' % len(o.outcomes), file=f['file'], line=f['line'])
-    # haveROSession / haveSession
-    for fname, need_ro in (('SessionManager::haveROSession', True), ('SessionManager::haveSession', False)):
-        f = prog.fn(fname)
-        ctx.analysed(f)
-        for d in product({'null': [0, 1], 'same': [0, 1], 'rw': [0, 1]}):
-            cenv = {'slotID': 7, re.compile(r'getSlotID\(getSlot\(operator\*\(.*\)\)\)'): 7 if d['same'] else 8, re.compile(r'isRW\(operator\*\(.*\)\)'): d['rw'],
-                    re.compile(r'operator\*\(.*\)'): 0 if d['null'] else 1}
-            o = outcomes(f, prog, cenv, rounds=2)
-            r.paths += len(o.outcomes)
-            match = not d['null'] and d['same'] and (not need_ro or not d['rw'])
-            looped = [oc for oc in o.outcomes if ':L' in oc['path']]
-            site = '%s entry null=%d same-slot=%d rw=%d' % (fname.split('::')[1], d['null'], d['same'], d['rw'])
-            bad = None
-            for oc in looped:
-                if match and oc['retv'] != 1:
-                    bad = ('a matching session is visited but the function returns %s' % oc['ret'], oc)
-                if not match and oc['retv'] != 0:
-                    bad = ('no matching session exists but the function returns %s' % oc['ret'], oc)
-            if not looped:
-                r.undecided(fname, site, 'no path iterates over the session table', file=f['file'], line=f['line'])
-            elif bad:
-                r.violation(fname, site, bad[0], file=f['file'], line=bad[1]['line'], path=bad[1]['path'])
-            else:
-                r.ok(fname, site, '%d paths' % len(looped), file=f['file'], line=f['line'])
+    # haveROSession / haveSession themselves: decided for every table content by R7 (representation-independent: iterator or index loops alike)
 
 
 def r3_lastclose(ctx, prog):
@@ -351,7 +328,7 @@ def r7_table_scans(ctx, prog):
     the scanning functions must compute what their name says for every content, in particular with holes in any position."""
     from engine.interp import St
     r = ctx.rule('C03.R7', 'the scans of the session table see every entry: haveSession / haveROSession / last-session test / close-all are correct for every table content', floor=4, engine='E1 finite-domain, concrete small vector')
-    kinds = [None, (7, 0), (7, 1), (5, 1)]
+    kinds = [None, (7, 0), (7, 1), (5, 1), (5, 0)]
     tables3 = [list(t) for t in itertools.product(kinds, repeat=3)]
 
     def run(fname, vals, extra, record):
@@ -363,7 +340,7 @@ def r7_table_scans(ctx, prog):
         return f, o
 
     def show(vals):
-        return '[' + ', '.join('-' if v is None else ('this slot %s' % ('RW' if v[1] else 'RO') if v[0] == 7 else 'other slot') for v in vals) + ']'
+        return '[' + ', '.join('-' if v is None else ('%s slot %s' % ('this' if v[0] == 7 else 'other', 'RW' if v[1] else 'RO')) for v in vals) + ']'
     # haveSession / haveROSession
     for fname, spec in (('SessionManager::haveSession', lambda vals: any(v is not None and v[0] == 7 for v in vals)),
                         ('SessionManager::haveROSession', lambda vals: any(v is not None and v[0] == 7 and not v[1] for v in vals))):
@@ -473,7 +450,7 @@ MUTANTS = [
          old='\t\t\tif (sessionManager->haveROSession(session->getSlot()->getSlotID())) return CKR_SESSION_READ_ONLY_EXISTS;\n', new=''),
     dict(name='opensession-no-so-test', rule='C03.R2', file='src/lib/session_mgr/SessionManager.cpp',
          old='if ((flags & CKF_RW_SESSION) == 0 && token->isSOLoggedIn()) return CKR_SESSION_READ_WRITE_SO_EXISTS;', new=''),
-    dict(name='haverosession-ignores-slot', rule='C03.R2', file='src/lib/session_mgr/SessionManager.cpp', after='bool SessionManager::haveROSession(',
+    dict(name='haverosession-ignores-slot', rule='C03.R7', file='src/lib/session_mgr/SessionManager.cpp', after='bool SessionManager::haveROSession(',
          old='\t\tif ((*i)->getSlot()->getSlotID() != slotID) continue;\n', new=''),
     dict(name='closesession-never-logs-out', rule='C03.R3', file='src/lib/session_mgr/SessionManager.cpp', after='CK_RV SessionManager::closeSession(',
          old='\tif (lastSession)\n\t{\n', new='\tif (lastSession && sessions.size() == 0)\n\t{\n'),
